@@ -13,6 +13,7 @@ CONTRACTS = {
     "Bounds.as_tuple": {"props": ["C01", "C03", "C04", "C05", "C06", "C07", "C08", "C10", "C11", "C12", "C20"],
                         "why": "(lower, upper) in that order - used as axiom by every kernel"},
     "Bounds.__eq__": {"props": ["C10", "C16", "C20"], "why": "bounds compare by (lower, upper)"},
+    "Bounds.__iter__": {"props": ["C03", "C16"], "why": "iterating a Bounds yields lower then upper"},
     "Bounds.__hash__": {"props": ["C10"], "why": "hash consistent with __eq__ (feeds the set / hash keys of validation)"},
     "variable.__hash__": {"props": ["C10"], "why": "hash over id and bounds: equal definitions hash equally, so identical shared leaves are merged"},
     "variable.__eq__": {"props": ["C10", "C14", "C18", "C20"], "why": "equality by id (its adequacy as de-duplication key is judged by E7)"},
@@ -48,6 +49,9 @@ class Bounds:
 
     def __hash__(self):
         return hash(self.lower) + hash(self.upper)
+
+    def __iter__(self):
+        return iter([self.lower, self.upper])
 
     def __eq__(self, obj):
         return (self.lower, self.upper) == (obj.as_tuple() if issubclass(obj.__class__, Bounds) else obj)
